@@ -21,14 +21,14 @@ type ErrNode struct {
 	// leaf kinds: plain eof dns-temp dns-timeout dns-notfound net-timeout deadline
 	// wrapper kinds: smtp smtp-helper temp fields fmtw
 	Kind   string   `json:"kind"`
-	Code   int      `json:"code,omitempty"`    // smtp: basic code; smtp-helper: unused
-	Ench   [3]int   `json:"ench,omitempty"`    // smtp: enhanced code; smtp-helper: x.y.z with class filled by the helper
-	TCode  int      `json:"tcode,omitempty"`   // smtp-helper: temporary code
-	PCode  int      `json:"pcode,omitempty"`   // smtp-helper: permanent code
-	Msg    string   `json:"msg,omitempty"`     // smtp message
-	Reason string   `json:"reason,omitempty"`  // smtp Reason
-	Temp   bool     `json:"temp,omitempty"`    // temp: the flag
-	Marker string   `json:"marker,omitempty"`  // internal detail text carried by plain / fmtw / fields
+	Code   int      `json:"code,omitempty"`   // smtp: basic code; smtp-helper: unused
+	Ench   [3]int   `json:"ench,omitempty"`   // smtp: enhanced code; smtp-helper: x.y.z with class filled by the helper
+	TCode  int      `json:"tcode,omitempty"`  // smtp-helper: temporary code
+	PCode  int      `json:"pcode,omitempty"`  // smtp-helper: permanent code
+	Msg    string   `json:"msg,omitempty"`    // smtp message
+	Reason string   `json:"reason,omitempty"` // smtp Reason
+	Temp   bool     `json:"temp,omitempty"`   // temp: the flag
+	Marker string   `json:"marker,omitempty"` // internal detail text carried by plain / fmtw / fields
 	Child  *ErrNode `json:"child,omitempty"`
 }
 
